@@ -346,7 +346,10 @@ impl<'a> G<'a> {
             return false;
         }
         let here = if f.is_main { usize::MAX } else { f.me };
-        if self.inject_fn != here {
+        // classes that need a call, an ecall or an if/else at the site take the first opportunity in
+        // any function (the chosen one often has none)
+        let anywhere = matches!(k, Inject::TempAfterCall | Inject::UnknownEcall | Inject::Unreachable);
+        if self.inject_fn != here && !anywhere {
             return false;
         }
         if self.inject_skip > 0 {
@@ -676,8 +679,26 @@ impl<'a> G<'a> {
         if base_only_li {
             self.emit_flag(Ins::li(A7, num as i32), Flag::BaseOnly);
             // violating variant: a7 comes from memory, so its value is not a known constant
-            self.emit_flag(Ins::La { rd: A7, label: "dat_w".into() }, Flag::ViolOnly);
-            self.emit_flag(Ins::lw(A7, 0, A7), Flag::ViolOnly);
+            // (directly, or copied / combined with the zero register in either operand order)
+            let via = f.never;
+            match self.rng.below(7) {
+                0 | 1 => {
+                    self.emit_flag(Ins::La { rd: A7, label: "dat_w".into() }, Flag::ViolOnly);
+                    self.emit_flag(Ins::lw(A7, 0, A7), Flag::ViolOnly);
+                }
+                k => {
+                    self.emit_flag(Ins::La { rd: via, label: "dat_w".into() }, Flag::ViolOnly);
+                    self.emit_flag(Ins::lw(via, 0, via), Flag::ViolOnly);
+                    let ins = match k {
+                        2 => Ins::Alu { op: AluOp::Add, rd: A7, rs1: ZERO, rs2: via },
+                        3 => Ins::Alu { op: AluOp::Add, rd: A7, rs1: via, rs2: ZERO },
+                        4 => Ins::Alu { op: *self.rng.pick(&[AluOp::Or, AluOp::Xor, AluOp::Sub]), rd: A7, rs1: ZERO, rs2: via },
+                        5 => Ins::mv(A7, via),
+                        _ => Ins::Alu { op: *self.rng.pick(&[AluOp::Or, AluOp::Xor, AluOp::Sub]), rd: A7, rs1: via, rs2: ZERO },
+                    };
+                    self.emit_flag(ins, Flag::ViolOnly);
+                }
+            }
         } else {
             self.emit(Ins::li(A7, num as i32));
         }
@@ -745,11 +766,17 @@ impl<'a> G<'a> {
         let callee_rec = self.sigs[callee].recursive;
         // a temporary that is assigned before the call and (wrongly) read after it
         let mut stale_temp: Option<Reg> = None;
+        let mut stale_temp2: Option<Reg> = None;
         let want_tac = self.inject == Some(Inject::TempAfterCall) && !self.injected;
         if want_tac || self.rng.chance(self.prof.p_temp_across_call) {
             let c = f.st.defined & TEMP_MASK & !bit(f.acc) & !mask(&args);
             if c != 0 {
-                stale_temp = Some(*self.rng.pick(&regs_of(c)));
+                let t = *self.rng.pick(&regs_of(c));
+                stale_temp = Some(t);
+                let c2 = c & !bit(t);
+                if c2 != 0 {
+                    stale_temp2 = Some(*self.rng.pick(&regs_of(c2)));
+                }
             }
         }
         for (k, a) in args.iter().enumerate() {
@@ -800,14 +827,27 @@ impl<'a> G<'a> {
         if let Some(t) = stale_temp {
             if self.want(Inject::TempAfterCall, f) {
                 // planted: read a temporary that the call may have clobbered
-                let l = if f.is_main {
+                let l = if let (true, Some(t2), true) = (f.is_main, stale_temp2, self.rng.chance(0.5)) {
+                    // one instruction reads two temporaries that the call may have clobbered
+                    let (a, b) = if self.rng.chance(0.5) { (t, t2) } else { (t2, t) };
+                    let l = self.emit_flag(Ins::Alu { op: AluOp::Add, rd: t, rs1: a, rs2: b }, Flag::ViolOnly);
+                    self.emit_flag(Ins::Alu { op: AluOp::Xor, rd: f.acc, rs1: f.acc, rs2: t }, Flag::ViolOnly);
+                    l
+                } else if f.is_main {
                     self.emit_flag(
                         Ins::Alu { op: AluOp::Xor, rd: f.acc, rs1: f.acc, rs2: t },
                         Flag::ViolOnly,
                     )
                 } else {
                     let off = f.spare.first().copied().unwrap_or(0);
-                    if self.rng.chance(0.4) {
+                    if let (Some(t2), true) = (stale_temp2, self.rng.chance(0.5)) {
+                        // one instruction reads two temporaries that the call may have clobbered
+                        let (a, b) = if self.rng.chance(0.5) { (t, t2) } else { (t2, t) };
+                        let op = *self.rng.pick(&[AluOp::Add, AluOp::Xor, AluOp::Sub]);
+                        let l = self.emit_flag(Ins::Alu { op, rd: t, rs1: a, rs2: b }, Flag::ViolOnly);
+                        self.emit_flag(Ins::sw(t, off, SP), Flag::ViolOnly);
+                        l
+                    } else if self.rng.chance(0.4) {
                         // the first reader also overwrites the register it reads
                         let op = *self.rng.pick(&[AluOp::Add, AluOp::Sll, AluOp::Xor]);
                         let imm = 1 + self.rng.below(7) as i32;
